@@ -7,6 +7,7 @@ import (
 	"encoding/json"
 	"fmt"
 	"os"
+	"runtime"
 	"sort"
 	"strconv"
 	"strings"
@@ -113,6 +114,33 @@ func (r *Report) Violate(section, key, msg string, replay any) {
 		}
 	}
 	r.Violations = append(r.Violations, Violation{Key: key, Message: msg, Section: section, Replay: replay})
+}
+
+// Guard is deferred by every harness right after the report is created. A panic that reaches the
+// harness's main goroutine - a set-up step of the code under test that fails although it works on
+// the unchanged tree, or the code under test panicking on the harness's goroutine - would otherwise
+// end the worker without a verdict; it is recorded as a violation and the report is still written.
+func (r *Report) Guard(e *Env) {
+	p := recover()
+	if p == nil {
+		return
+	}
+	buf := make([]byte, 8<<10)
+	buf = buf[:runtime.Stack(buf, false)]
+	msg := fmt.Sprint(p)
+	first := msg
+	if i := strings.IndexByte(first, '\n'); i >= 0 {
+		first = first[:i]
+	}
+	if len(r.Sections) == 0 {
+		r.Add(&Section{Name: "harness", Engine: "enum"})
+	}
+	r.Violate(r.Sections[len(r.Sections)-1].Name, "operation-failed-or-panicked: "+Clip(first, 160),
+		"an operation the check relies on (it works on the unchanged tree) failed or panicked: "+msg+"\n"+string(buf), nil)
+	for _, s := range r.Sections {
+		s.Exhaustive = false
+	}
+	r.Write(e)
 }
 
 // Write stores the report where the runner expects it.
